@@ -54,8 +54,22 @@ fn oid_match_canonical(c: &[u8]) -> bool {
     skip(c) && others.iter().all(|o| !skip(o))
 }
 
+/// A BOOLEAN captured in DER mode keeps being judged by the DER rules after the captured value has gone
+/// through into_builder / freeze: the verdict on its content is the verdict of a plain DER decode.
+fn bool_through_rebuilt_capture(c: &[u8]) -> bool {
+    let t = tlv(0x01, c);
+    let cap = match Constructed::decode(t.as_slice().into_source(), Mode::Der, |cons| cons.capture_all()) { Ok(cap) => cap, Err(_) => return true };
+    let plain = Primitive::decode_slice(c, Mode::Der, |p| p.to_bool()).ok();
+    let direct = cap.clone().decode(|cons| cons.take_primitive(|_, p| p.to_bool())).ok();
+    let rebuilt = cap.into_builder().freeze().decode(|cons| cons.take_primitive(|_, p| p.to_bool())).ok();
+    plain == direct && plain == rebuilt
+}
+
 fn leaf_case(em: &mut Emitter, ty: u8, c: &[u8]) {
     em.case(501, &[num_arg(ty), bytes_arg(c)], || {
+        if ty == 10 && catch(|| bool_through_rebuilt_capture(c)) != Some(true) {
+            return (Ints::new().n(-9), Oracle::Fail("a-captured-der-value-is-judged-by-other-rules-after-rebuilding".into()), true)
+        }
         if ty == 12 && catch(|| oid_match_canonical(c)) != Some(true) {
             return (Ints::new().n(-9), Oracle::Fail("object-identifier-match-accepts-a-different-encoding".into()), true)
         }
